@@ -125,6 +125,7 @@ fn main() {
             "parse" => suites::parse::run(&mut ctx),
             "grp" => suites::group::run(&mut ctx),
             "eg" => suites::eg::run(&mut ctx),
+            "hist" => suites::hist::run(&mut ctx),
             "ord" => suites::meta::run_order(&mut ctx),
             "ren" => suites::meta::run_rename(&mut ctx),
             _ => panic!("unknown suite"),
